@@ -137,7 +137,13 @@ pub fn jobs(tier: Tier) -> Vec<Job> {
     }
     // the validation/finality protocol at its own granularity, two deviations deeper
     for c in &deep_blocks(spec) {
-        v.push(pipeline_job("c01-depth", c, &RunCfg::parallel(2), FOCUS_VALIDATION, if tier == Tier::Quick { 4 } else { 5 }, true));
+        // quick: bound 4 where re-executions move, add or drop write locations, 3 on the plain chains
+        let moving = matches!(c.name.as_str(), "late-write-chain" | "early-write-chain" | "indirect-chain3");
+        let b = match tier {
+            Tier::Quick => if moving { 4 } else { 3 },
+            Tier::Thorough => 5,
+        };
+        v.push(pipeline_job("c01-depth", c, &RunCfg::parallel(2), FOCUS_VALIDATION, b, true));
     }
     // the "attempt started on stale state and ends at the commit head" window (findings F2, seeded
     // C03b/C05b) at attempt granularity
